@@ -30,6 +30,11 @@ try:
     if p.returncode != 0:
         print("PATCH-DOES-NOT-APPLY", (p.stderr + p.stdout).strip()[:500])
         sys.exit(3)
+    q = subprocess.run(["/venv/bin/python", "-c", "import optyx, optyx.solvers.scipy_solver, optyx.solvers.lp_solver, optyx.analysis"],
+                       env=dict(os.environ, PYTHONPATH=os.path.join(tmp, "src")), capture_output=True, text=True)
+    if q.returncode != 0:
+        print("PATCHED-TREE-DOES-NOT-IMPORT (the patch no longer fits the tree)", q.stderr.strip()[-300:])
+        sys.exit(3)
     for prop in a.props:
         env = dict(os.environ, OPTYX_SRC=os.path.join(tmp, "src"), VERIF_OUT_DIR=os.path.join(tmp, "out"))
         cmd = ["/venv/bin/python", os.path.join(V, "checks", "check.py"), prop, "--tier", a.tier]
